@@ -148,7 +148,26 @@ pub fn issue_own(ctx: &mut Ctx, case: &Value, entry_prop: &str) -> Option<Issued
     let mut tree = Node::from_wire(&case["tree"]);
     let marks = tree.marks();
     let order: Vec<usize> = case["order"].as_array().cloned().unwrap_or_default().iter().map(|v| v.as_u64().unwrap_or(0) as usize).collect();
-    let paths: Vec<String> = order.iter().map(|id| mark_by_id(&marks, *id).path.clone()).collect();
+    let mut paths: Vec<String> = order.iter().map(|id| mark_by_id(&marks, *id).path.clone()).collect();
+    // C06 only: now and then an array element is addressed by a padded or signed index (`/list/01`, `/list/+1`), which
+    // this issuer takes for the element. An issuer may decline such a path (RFC 6901 does not know them); one that
+    // accepts it must hide the element like any other.
+    let mut padded = false;
+    if entry_prop == "C06" {
+        for (k, id) in order.iter().enumerate() {
+            let m = mark_by_id(&marks, *id);
+            if m.in_array && crate::report::hash_of(&json!([case["tree"], k, "pad"])) % 5 == 0 {
+                if let Some(i) = paths[k].rfind('/') {
+                    let (head, idx) = paths[k].split_at(i + 1);
+                    if !idx.is_empty() && idx.bytes().all(|b| b.is_ascii_digit()) {
+                        paths[k] = format!("{}{}{}", head, if k % 2 == 0 { "0" } else { "+" }, idx);
+                        padded = true;
+                    }
+                }
+            }
+        }
+        if padded { ctx.report.bump("issued-with-padded-or-signed-index"); }
+    }
     let claims = tree.plain();
     let alg = alg_by_name(case["alg"].as_str().unwrap_or("HS256"));
     let fam = keys::family(&alg);
@@ -188,6 +207,7 @@ pub fn issue_own(ctx: &mut Ctx, case: &Value, entry_prop: &str) -> Option<Issued
     let token = match &issued {
         // the token looked at is the LAST one issued from the same issuer object
         Out::Ok(ts) => ts[ts.len() - 1].clone(),
+        Out::Err(..) if padded => { ctx.report.bump("padded-or-signed-index:issuer-declines"); return None; }
         other => {
             ctx.report.diff("property", "Issuer::encode", &format!("Issuer::encode:valid-marking:{}", out_sig(other)), case,
                 json!({"real": other.describe(|_| Value::Null), "claims": claims, "paths": paths}));
